@@ -101,6 +101,14 @@ EXTRA.setdefault("C05", []).append("Every granting path of WeakSnapshot::upgrade
 EXTRA["C08"].append("The exact word (tag included) is followed into and out of every link (LINK-TAG).")
 EXTRA["C09"].append("The exact word (tag included) is followed into and out of every link (LINK-TAG).")
 EXTRA.setdefault("C06", []).append("The loop over the popped edges visits every edge (no early-terminating adaptor, no break).")
+EXTRA.setdefault("C07", []).append("Every cycle of the synchronous call graph (direct calls, drop glue, local trait impls) is cut by a "
+                                  "maintained re-entrancy flag or state test (REC-NO-UNBOUNDED; F15, F16 fixed).")
+EXTRA["C18"].append("The traversal does not re-enter itself through defer_destroy -> incr_advance (F16, fixed).")
+EXTRA.setdefault("C20", []).append("Collections do not nest across the participants registered during tear-down (F15, fixed).")
+EXTRA.setdefault("C12", []).append("Every modular comparison of the cascade uses a window read after the last re-pin point (F17, fixed).")
+EXTRA["C02"].append("Re-pins during a collection are gated by the guard count (F13, fixed); stamp windows are fresh (F17, fixed).")
+EXTRA["C04"].append("Known finding F14: a panicking user destructor during a collection (no unwind guard in unpin / Bag::drop).")
+EXTRA["C15"].append("Known finding F14: a panicking user destructor during a collection (no unwind guard in unpin / Bag::drop).")
 EXTRA["C16"] = ["unpin writes back a guard count read after the collection (F11, fixed)."]
 NOTE = ("trusted base: rustc nightly MIR/const-eval/callee resolution, the mirfacts exporter, the circlint path reader and "
         "higher-order models (Result::map, array::from_fn, LocalKey::with, scopeguard); only the live cfg! arm (x86-64) and "
